@@ -8,6 +8,28 @@ BASELINE = ("cd /repo && env -u OTEL2PUML_VERIF /venv/bin/python -m pytest -ra -
 
 # id -> (category, technique, level text, level note, design ref)
 TABLE = {
+    "C10": ("proof",
+            "Coq refinement theorem (batched two-transaction commit + fallback refines 'first occurrence of every new id'); in-kernel differential correspondence against SQLite",
+            "Universal Coq theorems for every stream, duplicate placement, batch size (0, 1..n, larger than the stream) and number of "
+            "`with` blocks about an exact Gallina model of SQLDataHolder ingestion (pending lists, flush threshold, node transaction, "
+            "association transaction, IntegrityError fallback incl. the DetachedInstanceError path): the result equals the abstract "
+            "specification 'store gains exactly the first occurrence of each id it does not hold, with that occurrence's parent link', "
+            "independent of batch size; invariant preserved. Tied to /repo on every run: the same streams go through the real "
+            "IngestData/SQLDataHolder on SQLite files and through the model in coqc; tables compared row by row.",
+            "Trusted: Coq kernel+vm_compute; SQLite/SQLAlchemy transaction + UNIQUE/PK semantics as modelled (tied by correspondence); "
+            "harness. The refinement theorem assumes the store invariant inv_b (no stale association rows); outside it the model is "
+            "still exercised (it predicts the crash) but the property is C15's.",
+            "4/C10"),
+    "C12": ("proof",
+            "Coq theorems about consecutive grouping over every key-sorted arrangement of the rows; in-kernel differential correspondence against stream_data",
+            "Universal Coq theorems about a Gallina model of stream_data (filters, ORDER BY, two-level itertools.groupby, children through "
+            "the association join), stated for EVERY key-sorted permutation of the filtered rows (no assumption on SQLite's sorter or on "
+            "yield_per): each workflow name once, each trace once under it and whole, no span dropped, duplicated or mis-attributed, "
+            "children = association rows joined with stored nodes. Tied to /repo on every run by consuming the real nested generators "
+            "in nesting order on generated stores x batch sizes x filters and comparing with the model evaluated in coqc.",
+            "Trusted: Coq kernel+vm_compute; byte order of names/ids = order of their interned ranks; the lazy generators are consumed "
+            "in nesting order (as all callers do); harness.",
+            "4/C12"),
     "C08": ("proof",
             "Coq theorems over an exact Gallina model of sequence_otel.py; in-kernel differential correspondence; documented-rule oracle as failing-input search",
             "Universal Coq theorems for every span tree, mode and configuration about an exact Gallina model of the sequencer "
@@ -34,7 +56,7 @@ TABLE = {
 }
 
 # properties whose check is finished and quiet on the unchanged tree
-READY = {"C08", "C16"}
+READY = {"C08", "C10", "C12", "C16"}
 
 NOT_YET = {
 }
